@@ -142,14 +142,21 @@ func (p *IdentityProvider) ssoHandleFunc(w http.ResponseWriter, r *http.Request)
 			func() string { return authRequestForm.Sig },
 			func() string { return authRequestForm.Binding },
 		),
-		verifyRedirectSignature(
-			func() string { return authRequestForm.AuthRequest },
-			func() string { return authRequestForm.RelayState },
-			func() string { return authRequestForm.Sig },
-			func() string { return authRequestForm.SigAlg },
-			func() *serviceprovider.ServiceProvider { return sp },
-			func(errF error) { err = errF },
-		),
+		func() error {
+			// the signature covers the octets of the query string as sent (SAML bindings 3.4.4.1): verify those first,
+			// so that senders with another percent-encoding style than url.QueryEscape are accepted as well
+			if sp != nil && sp.ValidateRedirectSignatureOfQuery(r.URL.RawQuery, authRequestForm.AuthRequest, authRequestForm.RelayState, authRequestForm.SigAlg, authRequestForm.Sig) == nil {
+				return nil
+			}
+			return verifyRedirectSignature(
+				func() string { return authRequestForm.AuthRequest },
+				func() string { return authRequestForm.RelayState },
+				func() string { return authRequestForm.Sig },
+				func() string { return authRequestForm.SigAlg },
+				func() *serviceprovider.ServiceProvider { return sp },
+				func(errF error) { err = errF },
+			)()
+		},
 		func() {
 			response.sendBackResponse(r, w, response.makeFailedResponse(StatusCodeRequestDenied, fmt.Errorf("failed to verify signature: %w", err).Error(), p.TimeFormat))
 		},
